@@ -241,15 +241,27 @@ func (x *Exec) typeInv(v Term, t types.Type) Term {
 		// strings.Builder / bytes.Buffer: modelled as their byte sequence
 		return And(Cmp(">=", x.W.SeqLen(v), IntLit(0)), Cmp(">=", x.W.SeqOff(v), IntLit(0)))
 	}
+	ovf := x.cx != nil && x.cx.fc != nil && x.cx.fc.Flags["overflow"]
+	maxInt := T("9223372036854775807", SInt)
 	switch u := t.Underlying().(type) {
 	case *types.Basic:
 		if lo, hi, ok := intRange(u); ok {
 			return And(Cmp("<=", lo, v), Cmp("<=", v, hi))
 		}
+		if ovf && (u.Kind() == types.Int || u.Kind() == types.Int64) && v.Sort == SInt {
+			// flags overflow: int values are 64-bit machine integers in this unit
+			return And(Cmp("<=", T("(- 9223372036854775808)", SInt), v), Cmp("<=", v, maxInt))
+		}
 		if u.Info()&types.IsString != 0 {
+			if ovf {
+				return And(Cmp(">=", x.W.SeqLen(v), IntLit(0)), Cmp(">=", x.W.SeqOff(v), IntLit(0)), Cmp("<=", x.W.SeqLen(v), maxInt))
+			}
 			return And(Cmp(">=", x.W.SeqLen(v), IntLit(0)), Cmp(">=", x.W.SeqOff(v), IntLit(0)))
 		}
 	case *types.Slice:
+		if ovf {
+			return And(Cmp(">=", x.W.SeqLen(v), IntLit(0)), Cmp(">=", x.W.SeqOff(v), IntLit(0)), Cmp("<=", x.W.SeqLen(v), maxInt))
+		}
 		return And(Cmp(">=", x.W.SeqLen(v), IntLit(0)), Cmp(">=", x.W.SeqOff(v), IntLit(0)))
 	case *types.Pointer:
 		return x.typeInv(v, u.Elem())
@@ -687,7 +699,7 @@ func (x *Exec) execStmt(s ast.Stmt, env *Env, label string) *Env {
 			}
 		}
 		if x.cx.fc != nil && len(x.cx.fc.AtReturn) > 0 && x.quiet == 0 && x.unroll == 0 {
-			success := false
+			success := len(x.cx.results) == 0 // a function without results has no failure returns
 			if len(s.Results) > 0 {
 				if id, ok := ast.Unparen(s.Results[len(s.Results)-1]).(*ast.Ident); ok && id.Name == "nil" {
 					success = true
